@@ -41,6 +41,14 @@ class Result:
         d["rejected"] += agg["rejected"]
         d["excluded_nonterminating"] += agg["excluded"]
         d["grammar_load_errors"] += agg["build_errors"]
+        if "wf" in agg:
+            wf = self.extra.setdefault("grammars_with_termination_certificate", {"certified": 0, "not_certified": 0})
+            for kk in wf:
+                wf[kk] += agg["wf"][kk]
+        if "optcheck" in agg:
+            oc = self.extra.setdefault("optimizer_outputs_validated", {"valid": 0, "invalid": 0, "changed": 0})
+            for kk in oc:
+                oc[kk] += agg["optcheck"][kk]
         for lab in agg["labels"]:
             if len(self.samples) < 8:
                 self.samples.append(lab)
